@@ -390,7 +390,21 @@ func visitInstr(fr *frame, instr ssa.Instruction) continuation {
 		fr.env[instr] = makeMap(instr.Type().Underlying().(*types.Map).Key(), reserve)
 
 	case *ssa.Range:
-		fr.env[instr] = rangeIter(fr.i, fr.get(instr.X), instr.X.Type())
+		it := rangeIter(fr.i, fr.get(instr.X), instr.X.Type())
+		// Go leaves the iteration order of a map unspecified (the runtime starts
+		// at a random position). For `range` statements in the code under test
+		// (not in harnesses or libraries) over a map with two or more entries
+		// the order is a nondeterministic choice: every rotation of the
+		// insertion order, forwards (one path per rotation).
+		if mi, ok := it.(*omapIter); ok && len(mi.es) >= 2 && fr.i.mapOrderSubject(fr.fn) {
+			i := fr.i
+			i.ps.mapRanges++
+			t := i.newInput(fmt.Sprintf("maporder.%d", i.ps.mapRanges), "choose", 64)
+			i.assume(i.cx.Ult(t, i.cx.BV(uint64(len(mi.es)), 64)))
+			r := int(i.concretize(t))
+			mi.es = append(append([]*entry{}, mi.es[r:]...), mi.es[:r]...)
+		}
+		fr.env[instr] = it
 
 	case *ssa.Next:
 		fr.env[instr] = fr.get(instr.Iter).(iter).next()
